@@ -1,62 +1,97 @@
 (* C15 — all return and file modes deliver the same model.
    Only statements here; model and proofs live in theories/FileModes.v.
    `ListOps`: bytes = list N.  `RleOps`: the run-length byte strings the harness evaluates.
-   v : onnx_variant ranges over the ASSUMED behaviours of onnx.save_model (append/truncate sidecar,
-   CWD-relative existence check on/off); thr is the spill threshold; h the history of exports to p. *)
+   v : variant = ASSUMED writer behaviour (append/truncate, CWD-relative existence check) + whether the code
+   removes an old sidecar before writing (`v_remove_before`, true since /repo 1d7bd45; the harness ties the
+   current code to `repaired`).  thr = spill threshold; h = history of exports to p; `save` returns
+   (directory afterwards, returned-without-raising). *)
 From Coq Require Import NArith String List.
 From J2O Require Import FileModes.
 Import ListNotations.
 Open Scope N_scope.
 
-(* after ANY history of exports to one path (standard/web, any sizes, any order, any length, raising exports
-   included, any prior directory contents) the file loads to the model of the last export that did not
-   raise, every initializer byte-identical *)
-Theorem C15_load_after_history :
-  forall (v : onnx_variant) (thr : N) (p : string) (f0 : fs ListOps) (h : list (step ListOps)),
-    let st := run ListOps v thr p (init ListOps f0) h in
-    match st_last ListOps st with
-    | Some m => load ListOps (st_fs ListOps st) p = Some m
-    | None => st_fs ListOps st = f0
-    end.
-Proof. exact load_after_history. Qed.
-Print Assumptions C15_load_after_history.
+(* ---------------- load after save *)
+(* repaired code, full strength: for EVERY history (any mix of modes, sizes, CWDs, raising exports, any prior
+   directory) whose last step is web or not issued from an unrelated directory containing a file named like
+   the sidecar, the file loads to the model of the last step, every initializer byte-identical *)
+Theorem C15_load_after_save :
+  forall (v : variant) (thr : N) (p : string) (f0 : fs ListOps) (h : list (step ListOps)) (s : step ListOps),
+    v_remove_before v = true ->
+    st_mode ListOps s = Web \/ st_cwd ListOps s <> CwdClash ->
+    load ListOps (st_fs ListOps (run ListOps v thr p (init ListOps f0) (h ++ [s]))) p = Some (st_model ListOps s).
+Proof. exact load_after_save_repaired. Qed.
+Print Assumptions C15_load_after_save.
 
-(* full strength: "load p = model of the LAST export" — false of the unchanged code (FileExistsError when the
-   export is issued from inside the output directory and a sidecar exists) *)
+(* the remaining hypothesis is needed: the unconditional statement is still false of the repaired code *)
 Theorem C15_load_after_save_refuted :
-  ~ (forall (v : onnx_variant) (thr : N) (p : string) (f0 : fs ListOps) (h : list (step ListOps)) (s : step ListOps),
-       load ListOps (st_fs ListOps (run ListOps v thr p (init ListOps f0) (h ++ [s]))) p
+  ~ (forall (thr : N) (p : string) (f0 : fs ListOps) (h : list (step ListOps)) (s : step ListOps),
+       load ListOps (st_fs ListOps (run ListOps repaired thr p (init ListOps f0) (h ++ [s]))) p
        = Some (st_model ListOps s)).
 Proof. exact load_after_save_refuted. Qed.
 Print Assumptions C15_load_after_save_refuted.
 
-(* ... true exactly when the last export does not raise *)
+(* every variant: true exactly when the last export returns ... *)
 Theorem C15_load_after_save_partial :
-  forall (v : onnx_variant) (thr : N) (p : string) (f0 : fs ListOps) (h : list (step ListOps)) (s : step ListOps),
-    save ListOps v thr (st_fs ListOps (run ListOps v thr p (init ListOps f0) h)) p s <> None ->
+  forall (v : variant) (thr : N) (p : string) (f0 : fs ListOps) (h : list (step ListOps)) (s : step ListOps),
+    snd (save ListOps v thr (st_fs ListOps (run ListOps v thr p (init ListOps f0) h)) p s) = true ->
     load ListOps (st_fs ListOps (run ListOps v thr p (init ListOps f0) (h ++ [s]))) p = Some (st_model ListOps s).
 Proof. exact load_after_save_partial. Qed.
 Print Assumptions C15_load_after_save_partial.
 
-(* ... in particular for web exports and for exports issued from a CWD holding no file named like the sidecar *)
+(* ... and an export raises exactly in these situations, leaving the directory after the (optional) removal *)
+Theorem C15_raise_effect :
+  forall (v : variant) (thr : N) (f : fs ListOps) (p : string) (s : step ListOps),
+    snd (save ListOps v thr f p s) = false ->
+    fst (save ListOps v thr f p s) = pre ListOps v f p s /\ st_mode ListOps s = Standard /\ v_cwd_check v = true /\
+    (st_cwd ListOps s = CwdClash \/
+     (st_cwd ListOps s = CwdDest /\ v_remove_before v = false /\ lookup ListOps f (sidecar p) <> None)).
+Proof. exact raise_effect. Qed.
+Print Assumptions C15_raise_effect.
+
 Theorem C15_load_after_save_clean :
-  forall (v : onnx_variant) (thr : N) (p : string) (f0 : fs ListOps) (h : list (step ListOps)) (s : step ListOps),
+  forall (v : variant) (thr : N) (p : string) (f0 : fs ListOps) (h : list (step ListOps)) (s : step ListOps),
     st_mode ListOps s = Web \/ st_cwd ListOps s = CwdClean ->
     load ListOps (st_fs ListOps (run ListOps v thr p (init ListOps f0) (h ++ [s]))) p = Some (st_model ListOps s).
 Proof. exact load_after_save_clean. Qed.
 Print Assumptions C15_load_after_save_clean.
 
-(* ... and unconditionally for a writer without the CWD-relative existence check *)
 Theorem C15_load_after_save_no_cwd_check :
-  forall (v : onnx_variant) (thr : N) (p : string) (f0 : fs ListOps) (h : list (step ListOps)) (s : step ListOps),
-    ov_cwd_check v = false ->
+  forall (v : variant) (thr : N) (p : string) (f0 : fs ListOps) (h : list (step ListOps)) (s : step ListOps),
+    v_cwd_check v = false ->
     load ListOps (st_fs ListOps (run ListOps v thr p (init ListOps f0) (h ++ [s]))) p = Some (st_model ListOps s).
 Proof. exact load_after_save_no_cwd_check. Qed.
 Print Assumptions C15_load_after_save_no_cwd_check.
 
+(* "a raising export leaves the directory as it was" — FALSE of the repaired code (the removal precedes the
+   writer's refusal: the previous export loses its sidecar), true for code without the removal, for which the
+   file then always loads to the last export that returned *)
+Theorem C15_raise_atomic_refuted :
+  ~ (forall (thr : N) (f : fs ListOps) (p : string) (s : step ListOps),
+       snd (save ListOps repaired thr f p s) = false -> fst (save ListOps repaired thr f p s) = f).
+Proof. exact raise_atomic_refuted. Qed.
+Print Assumptions C15_raise_atomic_refuted.
+
+Theorem C15_raise_atomic_partial :
+  forall (v : variant) (thr : N) (f : fs ListOps) (p : string) (s : step ListOps),
+    v_remove_before v = false -> snd (save ListOps v thr f p s) = false -> fst (save ListOps v thr f p s) = f.
+Proof. exact raise_atomic_partial. Qed.
+Print Assumptions C15_raise_atomic_partial.
+
+Theorem C15_load_after_history_atomic :
+  forall (v : variant) (thr : N) (p : string) (f0 : fs ListOps) (h : list (step ListOps)),
+    v_remove_before v = false ->
+    let st := run ListOps v thr p (init ListOps f0) h in
+    match st_last ListOps st with
+    | Some m => load ListOps (st_fs ListOps st) p = Some m
+    | None => st_fs ListOps st = f0
+    end.
+Proof. exact load_after_history_atomic. Qed.
+Print Assumptions C15_load_after_history_atomic.
+
+(* ---------------- web *)
 (* web export after any history: no external reference, no sidecar, and the main file ALONE loads *)
 Theorem C15_web_self_contained :
-  forall (v : onnx_variant) (thr : N) (p : string) (f0 : fs ListOps) (h : list (step ListOps)) (s : step ListOps),
+  forall (v : variant) (thr : N) (p : string) (f0 : fs ListOps) (h : list (step ListOps)) (s : step ListOps),
     st_mode ListOps s = Web ->
     let f' := st_fs ListOps (run ListOps v thr p (init ListOps f0) (h ++ [s])) in
     refs_of ListOps f' p = [] /\ lookup ListOps f' (sidecar p) = None /\
@@ -64,53 +99,82 @@ Theorem C15_web_self_contained :
 Proof. exact web_self_contained. Qed.
 Print Assumptions C15_web_self_contained.
 
-(* after any history every external reference of the main file names p's sidecar and lies in [st_lo, size):
-   the region written by the last export that did not raise *)
+(* ---------------- stale sidecar *)
+(* repaired code: HISTORY INDEPENDENCE.  Whether an export returns, and the main file and sidecar it leaves
+   (presence and contents), are those of the same export into an EMPTY directory: no byte of an earlier export
+   survives, nothing stale can be referenced *)
+Theorem C15_history_independent :
+  forall (v : variant) (thr : N) (f : fs ListOps) (p : string) (s : step ListOps),
+    v_remove_before v = true ->
+    snd (save ListOps v thr f p s) = snd (save ListOps v thr [] p s) /\
+    (snd (save ListOps v thr f p s) = true ->
+     lookup ListOps (fst (save ListOps v thr f p s)) p = lookup ListOps (fst (save ListOps v thr [] p s)) p /\
+     lookup ListOps (fst (save ListOps v thr f p s)) (sidecar p)
+     = lookup ListOps (fst (save ListOps v thr [] p s)) (sidecar p)).
+Proof. exact history_independent. Qed.
+Print Assumptions C15_history_independent.
+
+(* every variant: after an export that returns, every external reference names p's sidecar and lies in
+   [lo, size), the region THIS export wrote *)
 Theorem C15_stale_sidecar_unreferenced :
-  forall (v : onnx_variant) (thr : N) (p : string) (f0 : fs ListOps) (h : list (step ListOps)) (m : model ListOps),
-    let st := run ListOps v thr p (init ListOps f0) h in
-    st_last ListOps st = Some m ->
+  forall (v : variant) (thr : N) (p : string) (f0 : fs ListOps) (h : list (step ListOps)) (s : step ListOps),
+    let f := st_fs ListOps (run ListOps v thr p (init ListOps f0) h) in
+    snd (save ListOps v thr f p s) = true ->
+    let st := run ListOps v thr p (init ListOps f0) (h ++ [s]) in
+    st_lo ListOps st = region_start ListOps (v_writer v) (pre ListOps v f p s) p /\
     forall loc off len, In (loc, off, len) (refs_of ListOps (st_fs ListOps st) p) ->
       loc = sidecar p /\ st_lo ListOps st <= off /\ off + len <= sidecar_size ListOps (st_fs ListOps st) p.
 Proof. exact stale_sidecar_unreferenced. Qed.
 Print Assumptions C15_stale_sidecar_unreferenced.
 
-(* with the append writer, st_lo is the old size and every old byte range reads as before: the stale bytes
-   are exactly [0, st_lo) *)
 Theorem C15_append_keeps_old_bytes :
-  forall (v : onnx_variant) (thr : N) (f : fs ListOps) (p : string) (s : step ListOps) (f' : fs ListOps),
-    ov_writer v = WAppend -> save ListOps v thr f p s = Some f' -> lookup ListOps f' (sidecar p) <> None ->
-    region_start ListOps (ov_writer v) f p = blen ListOps (data_of ListOps f (sidecar p)) /\
-    ext ListOps (data_of ListOps f (sidecar p)) (data_of ListOps f' (sidecar p)).
+  forall (v : variant) (thr : N) (f : fs ListOps) (p : string) (s : step ListOps),
+    v_writer v = WAppend -> snd (save ListOps v thr f p s) = true ->
+    lookup ListOps (fst (save ListOps v thr f p s)) (sidecar p) <> None ->
+    region_start ListOps (v_writer v) (pre ListOps v f p s) p
+    = blen ListOps (data_of ListOps (pre ListOps v f p s) (sidecar p)) /\
+    ext ListOps (data_of ListOps (pre ListOps v f p s) (sidecar p))
+                (data_of ListOps (fst (save ListOps v thr f p s)) (sidecar p)).
 Proof. exact append_keeps_old_bytes. Qed.
 Print Assumptions C15_append_keeps_old_bytes.
 
+(* the sidecar is exactly as large as what a fresh export writes: now a theorem of the repaired code ... *)
+Theorem C15_sidecar_exact :
+  forall (thr : N) (p : string) (f : fs ListOps) (s : step ListOps),
+    snd (save ListOps repaired thr f p s) = true ->
+    sidecar_size ListOps (fst (save ListOps repaired thr f p s)) p
+    = expected_sidecar ListOps (st_mode ListOps s) thr (st_model ListOps s).
+Proof. exact sidecar_exact_repaired. Qed.
+Print Assumptions C15_sidecar_exact.
+
+(* ... false before the repair (append writer) ... *)
+Theorem C15_sidecar_exact_refuted_unrepaired :
+  ~ (forall (thr : N) (p : string) (f : fs ListOps) (s : step ListOps),
+       snd (save ListOps unrepaired thr f p s) = true ->
+       sidecar_size ListOps (fst (save ListOps unrepaired thr f p s)) p
+       = expected_sidecar ListOps (st_mode ListOps s) thr (st_model ListOps s)).
+Proof. exact sidecar_exact_refuted_unrepaired. Qed.
+Print Assumptions C15_sidecar_exact_refuted_unrepaired.
+
+(* ... and in general under exactly these conditions *)
+Theorem C15_sidecar_exact_partial :
+  forall (v : variant) (thr : N) (f : fs ListOps) (p : string) (s : step ListOps),
+    snd (save ListOps v thr f p s) = true ->
+    v_remove_before v = true \/ sidecar_size ListOps f p = 0 \/ st_mode ListOps s = Web ->
+    sidecar_size ListOps (fst (save ListOps v thr f p s)) p
+    = expected_sidecar ListOps (st_mode ListOps s) thr (st_model ListOps s).
+Proof. exact sidecar_exact_partial. Qed.
+Print Assumptions C15_sidecar_exact_partial.
+
 (* exports to p touch nothing but p and its sidecar *)
 Theorem C15_frame :
-  forall (v : onnx_variant) (thr : N) (p : string) (f0 : fs ListOps) (h : list (step ListOps)) (q : string),
+  forall (v : variant) (thr : N) (p : string) (f0 : fs ListOps) (h : list (step ListOps)) (q : string),
     q <> p -> q <> sidecar p -> lookup ListOps (st_fs ListOps (run ListOps v thr p (init ListOps f0) h)) q = lookup ListOps f0 q.
 Proof. exact frame. Qed.
 Print Assumptions C15_frame.
 
-(* observation (not required by C15): "the sidecar is exactly what a fresh export writes" is false ... *)
-Theorem C15_sidecar_exact_refuted :
-  ~ (forall (v : onnx_variant) (thr : N) (p : string) (f : fs ListOps) (s : step ListOps) (f' : fs ListOps),
-       save ListOps v thr f p s = Some f' ->
-       sidecar_size ListOps f' p = expected_sidecar ListOps (st_mode ListOps s) thr (st_model ListOps s)).
-Proof. exact sidecar_exact_refuted. Qed.
-Print Assumptions C15_sidecar_exact_refuted.
-
-(* ... and true when no (or an empty) sidecar existed before, or for web exports *)
-Theorem C15_sidecar_exact_partial :
-  forall (v : onnx_variant) (thr : N) (f : fs ListOps) (p : string) (s : step ListOps) (f' : fs ListOps),
-    save ListOps v thr f p s = Some f' ->
-    sidecar_size ListOps f p = 0 \/ st_mode ListOps s = Web ->
-    sidecar_size ListOps f' p = expected_sidecar ListOps (st_mode ListOps s) thr (st_model ListOps s).
-Proof. exact sidecar_exact_partial. Qed.
-Print Assumptions C15_sidecar_exact_partial.
-
-(* the two byte-string implementations satisfy the laws the theorems rest on; the run-length one is what the
-   harness evaluates, and the main theorem holds for it verbatim *)
+(* ---------------- byte strings: both implementations satisfy the laws; the run-length one is what the harness
+   evaluates, and the headline theorems hold for it verbatim *)
 Theorem C15_list_bytes_laws : BlobLaws ListOps.
 Proof. exact ListLaws. Qed.
 Print Assumptions C15_list_bytes_laws.
@@ -119,12 +183,10 @@ Theorem C15_rle_bytes_laws : BlobLaws RleOps.
 Proof. exact RleLaws. Qed.
 Print Assumptions C15_rle_bytes_laws.
 
-Theorem C15_rle_load_after_history :
-  forall (v : onnx_variant) (thr : N) (p : string) (f0 : fs RleOps) (h : list (step RleOps)),
-    let st := run RleOps v thr p (init RleOps f0) h in
-    match st_last RleOps st with
-    | Some m => load RleOps (st_fs RleOps st) p = Some m
-    | None => st_fs RleOps st = f0
-    end.
-Proof. exact rle_load_after_history. Qed.
-Print Assumptions C15_rle_load_after_history.
+Theorem C15_rle_load_after_save :
+  forall (v : variant) (thr : N) (p : string) (f0 : fs RleOps) (h : list (step RleOps)) (s : step RleOps),
+    v_remove_before v = true ->
+    st_mode RleOps s = Web \/ st_cwd RleOps s <> CwdClash ->
+    load RleOps (st_fs RleOps (run RleOps v thr p (init RleOps f0) (h ++ [s]))) p = Some (st_model RleOps s).
+Proof. exact rle_load_after_save_repaired. Qed.
+Print Assumptions C15_rle_load_after_save.
